@@ -5,6 +5,7 @@ package main
 import (
 	"bytes"
 	"fmt"
+	"sort"
 
 	corestore "cosmossdk.io/core/store"
 
@@ -193,6 +194,19 @@ func oracleIter(bounds [][]byte) Oracle {
 				return viol("iter", "GetImmutable(%d): %v", ver, err)
 			}
 			if v := checkImmIter(fmt.Sprintf("v%d", ver), it, m.Conts[ver], bounds, false); v != nil {
+				return v
+			}
+		}
+		// ImmutableTrees obtained (and used once) earlier in the history still iterate as their version
+		var hv []int64
+		for ver := range w.held {
+			if m.Has(ver) {
+				hv = append(hv, ver)
+			}
+		}
+		sort.Slice(hv, func(i, j int) bool { return hv[i] < hv[j] })
+		for _, ver := range hv {
+			if v := checkImmIter(fmt.Sprintf("ImmutableTree of version %d obtained earlier in the history", ver), w.held[ver], w.heldC[ver], bounds, false); v != nil {
 				return v
 			}
 		}
